@@ -186,8 +186,10 @@ def coq_obs(conf, nw, res):
     return "(%s, %d, (%d), %s, %s, ((%d),(%d)))" % (cfg, nw, res["chunk0"], ys, ws, res["final"][0], res["final"][1])
 
 
-def coq_case(conf, nw, res):
-    turns = "[" + ";".join("(%d,%d,%s)" % (w, c, v if v >= 0 else "(%d)" % v) for w, c, v in res["events"]) + "]"
+def coq_case(conf, nw, res, macro_only=False):
+    """macro_only: keep only the release (7) and result-write (9) actions, which is all chk_macro looks at"""
+    turns = "[" + ";".join("(%d,%d,%s)" % (w, c, v if v >= 0 else "(%d)" % v) for w, c, v in res["events"]
+                           if not macro_only or c in (7, 9)) + "]"
     return "(%s, %s)" % (coq_obs(conf, nw, res), turns)
 
 
@@ -232,7 +234,7 @@ def gen_mp(ctx):
 def run(ctx):
     ctx.rule = ("real Scheduler.__iter__ generators executed under a deterministic controller, one atomic lock/read/write/"
                 "release/result-write action per turn: PRNG interleavings (n 0..40 at action granularity, n 41..400 and "
-                "c_int boundary sizes at critical-section granularity; nprocs 1..4, workers 1..4, all three kinds, chunk "
+                "C-integer boundary sizes 2^31-1 .. 2^33+1 at critical-section granularity; nprocs 1..4, workers 1..4, all three kinds, chunk "
                 "None/0/negative/1../n/n+1), exhaustive interleavings of enabled workers for small (n, workers) at action and "
                 "at critical-section granularity, malformed stream (negative n, nprocs 0, unknown kind); each execution is "
                 "replayed in the Coq model. Non-trivial = at least two slices handed out and at least two workers received one "
@@ -264,7 +266,7 @@ def run(ctx):
     if not complete:
         ctx.notes.append("some exhaustive scopes hit their cap: the Scheduler under test has more interleavings than the modelled one")
 
-    cases, disc_bad = [], []
+    cases, mcases, disc_bad = [], [], []
     fails = Sorted(ctx)
     for conf, nw, res, cls in items:
         ctx.count(cls)
@@ -282,12 +284,16 @@ def run(ctx):
         if not ok or conf["kind"] not in KINDS:
             continue
         if [e[0] for e in res["events"]] != res["turns"]:
-            ctx.broken.append(("correspondence:driver", "the recorded action stream is not one action per turn for Scheduler(%s)" % (conf,)))
+            if not any(b[0] == "correspondence:driver" for b in ctx.broken):
+                ctx.broken.append(("correspondence:driver", "the recorded action stream is not one action per turn for Scheduler(%s)" % (conf,)))
             continue
         d = lock_discipline(res["events"])
         if d:
             disc_bad.append((conf, nw, d))
-        cases.append((coq_case(conf, nw, res), len(res["turns"])))
+        if cls in ("exhaustive_macro", "depth_first_sample_macro") and ctx.thorough:
+            mcases.append((coq_case(conf, nw, res, True), len(res["turns"]) // 4))
+        else:
+            cases.append((coq_case(conf, nw, res), len(res["turns"])))
         ctx.traces += 1
     fails.flush()
     if disc_bad:
@@ -297,30 +303,36 @@ def run(ctx):
 
     # ---- replay in the model
     import re
-    files, cur, load = [], [], 0
-    for text, size in cases:
-        if cur and (len(cur) >= 400 or load + size > 30000):
-            files.append(cur)
-            cur, load = [], 0
-        cur.append(text)
-        load += size
-    if cur:
-        files.append(cur)
     import os
     tag = "%s_%d" % (ctx.tier, os.getpid())      # concurrent runs of this check must not share scratch files
-    texts = [("c15_replay_%s_%03d" % (tag, i), HDR + "Definition cases : list tcase := [%s].\nEval vm_compute in (bad chk_macro cases).\n"
-              "Eval vm_compute in (bad chk_strict cases).\n" % ";\n".join(f), f) for i, f in enumerate(files)]
-    res = ctx.coq_eval_many([(n_, t) for n_, t, _ in texts], timeout=1200)
+
+    def shards(cs, name, both):
+        files, cur, load = [], [], 0
+        for text, size in cs:
+            if cur and (len(cur) >= 400 or load + size > 30000):
+                files.append(cur)
+                cur, load = [], 0
+            cur.append(text)
+            load += size
+        if cur:
+            files.append(cur)
+        return [("%s_%s_%03d" % (name, tag, i), HDR + "Definition cases : list tcase := [%s].\nEval vm_compute in (bad chk_macro cases).\n"
+                 % ";\n".join(f) + ("Eval vm_compute in (bad chk_strict cases).\n" if both else ""), f, both) for i, f in enumerate(files)]
+    # executions enumerated at critical-section granularity (thorough tier) are replayed at that level only
+    texts = shards(cases, "c15_replay", True) + shards(mcases, "c15_macro", False)
+    res = ctx.coq_eval_many([(n_, t) for n_, t, _, _ in texts], timeout=1200)
     strict_bad = strict_total = macro_bad = macro_total = 0
     macro_eg = None
     evalfail = {}
-    for name, _, lines in texts:
+    for name, _, lines, both in texts:
         out, ok = res[name]
         ev = evals(out) if ok else []
-        if not ok or len(ev) != 2:
+        if not ok or len(ev) != (2 if both else 1):
             evalfail.setdefault("critical_section", out[-300:])
             continue
-        bad_macro, bad_strict = ([int(x) for x in re.findall(r"-?\d+", re.sub(r"%[a-zA-Z]+", "", e))] for e in ev)
+        bads = [[int(x) for x in re.findall(r"-?\d+", re.sub(r"%[a-zA-Z]+", "", e))] for e in ev]
+        bad_macro = bads[0]
+        bad_strict = bads[1] if both else []
         if not bad_macro:
             try:
                 os.remove(os.path.join(ctx.rundir, name + ".v"))
@@ -330,8 +342,9 @@ def run(ctx):
         macro_bad += len(bad_macro)
         if bad_macro and macro_eg is None:
             macro_eg = min((lines[i] for i in bad_macro), key=len)
-        strict_total += len(lines)
-        strict_bad += len(bad_strict)
+        if both:
+            strict_total += len(lines)
+            strict_bad += len(bad_strict)
     for what, detail in evalfail.items():
         ctx.broken.append(("correspondence:" + what, "model evaluation failed: " + detail))
     if macro_bad:
@@ -351,6 +364,11 @@ def run(ctx):
         if "mp_unavailable" in o:
             ctx.notes.append("multiprocessing unavailable in this sandbox: " + o["mp_unavailable"])
         else:
+            pj = [r for c, r in zip(mp_cases, o["mp"]) if c["what"] == "proj" and "error" not in r]
+            ctx.notes.append("real multi-process runs: Proj_MP compared bit-for-bit with one single-process call of the same PROJ "
+                             "transformer and within 1e-9 deg / 1e-6 m with pyproj.Proj (%d of %d runs are bit-identical to pyproj.Proj "
+                             "too; its inverse differs from the transformer pipeline in the last bits); cKDTree_MP.query compared "
+                             "bit-for-bit with scipy cKDTree.query" % (sum(1 for r in pj if r.get("bit_identical_to_pyproj_Proj")), len(pj)))
             for c, r in zip(mp_cases, o["mp"]):
                 ctx.count("mp_" + c["what"])
                 ctx.case(("mp", repr(c)), nontrivial=r.get("n", 0) >= 2, sample={"mp_" + c["what"]: c, "impl": r})
